@@ -183,7 +183,7 @@ pub fn build(events: &[Event]) -> Model {
                 }
             }
             // read by mon::taint, not part of the stream model
-            Event::FoldUnclaimedLore { .. } | Event::FoldUnclaimedLoreByCause { .. } | Event::FailedCallLeavesSentState { .. } => {}
+            _ => {}
         }
     }
     m
